@@ -4,6 +4,9 @@
 //verif:replace (*github.com/celestiaorg/celestia-node/share/shwap/p2p/shrex/shrex_getter.Getter).getPeer github.com/celestiaorg/celestia-node/share/shwap/p2p/shrex/shrex_getter.verifGetPeer
 //verif:replace (github.com/celestiaorg/celestia-node/share/shwap.Sample).Verify github.com/celestiaorg/celestia-node/share/shwap/p2p/shrex/shrex_getter.verifSampleVerify
 //verif:replace (*github.com/celestiaorg/celestia-node/share/shwap.Row).Verify github.com/celestiaorg/celestia-node/share/shwap/p2p/shrex/shrex_getter.verifRowVerify
+//verif:replace (github.com/celestiaorg/celestia-node/share/shwap.NamespaceData).Verify github.com/celestiaorg/celestia-node/share/shwap/p2p/shrex/shrex_getter.verifNDVerify
+//verif:replace (*github.com/celestiaorg/celestia-node/share/shwap.RangeNamespaceData).VerifyInclusion github.com/celestiaorg/celestia-node/share/shwap/p2p/shrex/shrex_getter.verifRangeVerify
+//verif:replace github.com/celestiaorg/celestia-node/share/eds.ReadAccessor github.com/celestiaorg/celestia-node/share/shwap/p2p/shrex/shrex_getter.verifReadAccessor
 //verif:replace context.WithTimeout github.com/celestiaorg/celestia-node/share/shwap/p2p/shrex/shrex_getter.verifWithTimeout
 //verif:replace (*github.com/celestiaorg/celestia-app/v9/pkg/da.DataAvailabilityHeader).Equals github.com/celestiaorg/celestia-node/share/shwap/p2p/shrex/shrex_getter.verifDAHEquals
 //verif:noop github.com/celestiaorg/celestia-app/v9/pkg/da
@@ -13,9 +16,11 @@
 package shrex_getter
 
 import (
+	"bytes"
 	"context"
 	"errors"
 	"fmt"
+	"io"
 	"time"
 
 	libpeer "github.com/libp2p/go-libp2p/core/peer"
@@ -23,9 +28,11 @@ import (
 	"github.com/celestiaorg/celestia-app/v9/pkg/da"
 	libshare "github.com/celestiaorg/go-square/v4/share"
 	"github.com/celestiaorg/nmt"
+	"github.com/celestiaorg/rsmt2d"
 
 	"github.com/celestiaorg/celestia-node/header"
 	"github.com/celestiaorg/celestia-node/share"
+	"github.com/celestiaorg/celestia-node/share/eds"
 	"github.com/celestiaorg/celestia-node/share/shwap"
 	"github.com/celestiaorg/celestia-node/share/shwap/p2p/shrex"
 	"github.com/celestiaorg/celestia-node/share/shwap/p2p/shrex/peers"
@@ -110,6 +117,16 @@ func verifClientGet(c *shrex.Client, ctx context.Context, req any, resp any, pee
 		*r = shwap.Sample{Share: verifShare(good), Proof: &p}
 	case *shwap.Row:
 		*r = shwap.NewRow([]libshare.Share{verifShare(good), verifShare(good)}, shwap.Both)
+	case *shwap.NamespaceData:
+		*r = shwap.NamespaceData{{Shares: []libshare.Share{verifShare(good)}, Proof: &p}}
+	case *shwap.RangeNamespaceData:
+		*r = shwap.RangeNamespaceData{Shares: [][]libshare.Share{{verifShare(good)}}}
+	case *bytes.Buffer:
+		b := byte(0)
+		if good {
+			b = 1
+		}
+		r.Write([]byte{b})
 	default:
 		return errors.New("stub: unexpected response type")
 	}
@@ -131,10 +148,40 @@ func verifRowVerify(r *shwap.Row, roots *share.AxisRoots, idx int) error {
 	return shwap.ErrFailedVerification
 }
 
+func verifNDVerify(d shwap.NamespaceData, roots *share.AxisRoots, ns libshare.Namespace) error {
+	if len(d) > 0 && len(d[0].Shares) > 0 && verifIsGood(d[0].Shares[0]) {
+		return nil
+	}
+	return shwap.ErrFailedVerification
+}
+
+func verifRangeVerify(r *shwap.RangeNamespaceData, from, to shwap.SampleCoords, odsSize int, roots [][]byte) error {
+	if len(r.Shares) > 0 && len(r.Shares[0]) > 0 && verifIsGood(r.Shares[0][0]) {
+		return nil
+	}
+	return shwap.ErrFailedVerification
+}
+
+var verifGoodSquare = new(rsmt2d.ExtendedDataSquare)
+
+func verifReadAccessor(ctx context.Context, r io.Reader, roots *share.AxisRoots) (*eds.Rsmt2D, error) {
+	var b [1]byte
+	if _, err := io.ReadFull(r, b[:]); err != nil {
+		return nil, err
+	}
+	if b[0] == 1 {
+		return &eds.Rsmt2D{ExtendedDataSquare: verifGoodSquare}, nil
+	}
+	return nil, shwap.ErrFailedVerification
+}
+
 func verifHeaderAndGetter() (*Getter, *header.ExtendedHeader, context.Context) {
 	roots := make([][]byte, 4)
 	for i := range roots {
 		roots[i] = make([]byte, 90)
+		for j := libshare.NamespaceSize; j < 2*libshare.NamespaceSize; j++ {
+			roots[i][j] = 0xFF // every namespace lies inside the row's range
+		}
 	}
 	eh := &header.ExtendedHeader{DAH: &da.DataAvailabilityHeader{RowRoots: roots, ColumnRoots: roots}}
 	eh.RawHeader.Height = 7
@@ -204,4 +251,55 @@ func VerifH_C06_NotFoundIsReportedAsNotFound() {
 	nd.Cover("notfound")
 	nd.Assert(err != nil, "not-found-is-not-success")
 	nd.Assert(errors.Is(err, shwap.ErrNotFound), "not-found-is-reported-as-not-found")
+}
+
+// Namespace data, a share range and a whole square are handed back only if the
+// response that filled them verified; an error comes with nothing; all-NOT_FOUND
+// is not-found.
+//
+//verif:opts nopanic nodeadlock noreplay preempt=0 threads=8 cover=nd-ok,nd-failed,range-ok,range-failed,eds-ok,eds-failed,notfound
+func VerifH_C06_OtherRequestTypesOnlyVerified() {
+	sg, eh, ctx := verifHeaderAndGetter()
+	verifE.allowNoPeer = true
+	verifE.onlyNotFound = nd.Choice(2, "onlyNotFound") == 1
+	ns := libshare.MustNewV0Namespace([]byte("c06"))
+	switch nd.Choice(3, "requestType") {
+	case 0:
+		d, err := sg.GetNamespaceData(ctx, eh, ns)
+		if err != nil {
+			nd.Cover("nd-failed")
+			nd.Assert(len(d) == 0, "error-comes-with-no-data")
+			if verifE.onlyNotFound && verifE.attempts > 0 {
+				nd.Cover("notfound")
+				nd.Assert(errors.Is(err, shwap.ErrNotFound), "not-found-is-reported-as-not-found")
+			}
+			return
+		}
+		nd.Cover("nd-ok")
+		nd.Assert(len(d) == 1 && verifIsGood(d[0].Shares[0]), "only-verified-namespace-data-is-handed-back")
+	case 1:
+		r, err := sg.GetRangeNamespaceData(ctx, eh, 0, 2)
+		if err != nil {
+			nd.Cover("range-failed")
+			nd.Assert(r.IsEmpty(), "error-comes-with-no-data")
+			if verifE.onlyNotFound && verifE.attempts > 0 {
+				nd.Assert(errors.Is(err, shwap.ErrNotFound), "not-found-is-reported-as-not-found")
+			}
+			return
+		}
+		nd.Cover("range-ok")
+		nd.Assert(len(r.Shares) == 1 && verifIsGood(r.Shares[0][0]), "only-a-verified-range-is-handed-back")
+	case 2:
+		sq, err := sg.GetEDS(ctx, eh)
+		if err != nil {
+			nd.Cover("eds-failed")
+			nd.Assert(sq == nil, "error-comes-with-no-data")
+			if verifE.onlyNotFound && verifE.attempts > 0 {
+				nd.Assert(errors.Is(err, shwap.ErrNotFound), "not-found-is-reported-as-not-found")
+			}
+			return
+		}
+		nd.Cover("eds-ok")
+		nd.Assert(sq == verifGoodSquare, "only-a-verified-square-is-handed-back")
+	}
 }
